@@ -558,6 +558,19 @@ theorem pruneNameplates_iso (now : Time) : ∀ (l : List Nameplate) {s₁ s₂ :
             exact ⟨hl n (by simp [hn]), fun e => (List.rel_of_pairwise_cons hd hn) e.symm⟩
           · exact (List.pairwise_cons.1 hd).2
 
+theorem pruneNameplates_mailboxes (app : String) (now : Time) : ∀ (l : List Nameplate) (s : Sys),
+    (s.pruneNameplates app now l).1.db.mailboxes = s.db.mailboxes
+  | [], _ => rfl
+  | np :: rest, s => by
+    rw [pruneNameplates_cons]
+    have hd := (s.modDb (fun d => (d.delNpSidesOf np.id).delNameplate np.id)).uNp_db app (s.db.npSidesOf np.id) now true
+    cases e : (s.modDb (fun d => (d.delNpSidesOf np.id).delNameplate np.id)).uNp app (s.db.npSidesOf np.id) now true with
+    | mk a1 b1 =>
+      rw [e] at hd
+      cases b1 with
+      | false => dsimp only; rw [hd]; rfl
+      | true => dsimp only; rw [pruneNameplates_mailboxes app now rest a1, hd]; rfl
+
 /-- the loop over `old_mailboxes` -/
 theorem pruneMailboxes_iso (now : Time) : ∀ (l : List MailboxRow) {s₁ s₂ : Sys}, IsoRel b ρ s₁ s₂ →
     (∀ r ∈ l, s₁.db.HasMb b r.id) → l.Pairwise (fun x y => ¬ x.id = y.id) →
@@ -630,9 +643,10 @@ theorem prune_iso (h : IsoRel b ρ s₁ s₂) (hp : s₁.db.PInv) {now old : Tim
         have hmbl' : ∀ r ∈ (((s₁.touchListened b now).commit).db.mailboxesOfApp b).filter (fun r => ¬ r.updated > old),
             a₁.db.HasMb b r.id := by
           intro r hr
-          have hq := (pruneNameplates_spec (app := b) (now := now) _ ea).1
+          have hq := congrArg (fun p : Sys × Bool => p.1.db.mailboxes) ea
+          simp only [pruneNameplates_mailboxes] at hq
           obtain ⟨m0, g1, g2, g3⟩ := hmbl r hr
-          exact ⟨m0, by rw [hq.mailboxes]; exact g1, g2, g3⟩
+          exact ⟨m0, by rw [← hq]; exact g1, g2, g3⟩
         have h3 := pruneMailboxes_iso now _ h2 hmbl' hmbd
         simp only [ne_eq, List.map_eq_nil_iff] at e₁ e₂
         split at e₁
